@@ -435,6 +435,14 @@ def r13(facts, res):
                     else:
                         bad.append('the transition symbol is not compared with prod(item)[dot(item)]')
         adds = [e for e in p.events if e[0] == 'call' and e[2] and e[2]['name'] == 'add' and 'Itemset' in e[2]['path']]
+        # the same thing written as a direct insertion into the new item set's map: items.insert((pidx, dot + 1), ctx.clone())
+        for e in p.events:
+            if e[0] == 'call' and e[2] and e[2]['name'] == 'insert' and 'HashMap' in (e[2].get('self_ty') or e[2]['path']) and len(e[3]) == 3:
+                k_, v_ = strip_ref(e[3][1]), strip_ref(e[3][2])
+                if k_[0] == 'tuple' and len(k_[1]) == 2:
+                    while is_call(v_, 'clone') and v_[2]:
+                        v_ = strip_ref(v_[2][0])
+                    adds.append((e[0], e[1], e[2], (e[3][0], k_[1][0], k_[1][1], v_)) + tuple(e[4:]))
         rows.add((complete, sym_eq, len(adds)))
         should = (complete is False) and (sym_eq is True)
         if should != (len(adds) == 1) or len(adds) > 1:
